@@ -26,7 +26,7 @@ CHECKS = [
         "exhaustive comparison of the extracted grammar model against an independent Pratt parser.",
         "design_ref": "DESIGN.md section 3, C01 (R1.1-R1.11)",
         "note": COMMON_NOTE,
-        "technique": "grammar extraction by abstract interpretation of the parser source; path-summary rules; CFG dominance; token-table extraction",
+        "technique": "grammar extraction by abstract interpretation of the parser source; path-summary rules; CFG dominance; token-table extraction; abstract evaluation of the implicit-intercept insertion on a symbolic token list",
     },
     {
         "property_id": "C02",
@@ -72,7 +72,7 @@ CHECKS = [
         "text": "Policy plumbing: closed configuration (validated __setattr__, no other writer, default 'error'); every literal compared with the configuration is a declared value and the consumers raise / warn-and-fall-through as documented; zeroing discipline of both eval_new_data_categoric siblings (same mask for index patch and zeroing, fresh copy of remembered rows, masked store) and equality of their abstract summaries; new-group bookkeeping (trailing conditional block set on exactly the unseen rows, slices rebuilt from new widths, factors_with_new_levels per factor once). Not decided: the values inside the blocks.",
         "design_ref": 'DESIGN.md section 3, C10 (R10.1-R10.5)',
         "note": COMMON_NOTE,
-        "technique": 'CFG region/dominance analysis of Config.__setattr__; literal-domain agreement; def-use identity of masks; sibling summary comparison',
+        "technique": 'CFG region/dominance analysis of Config.__setattr__; literal-domain agreement; def-use identity of masks; sibling summary comparison; abstract evaluation of the new-group bookkeeping loop (shared model with C17)',
     },
     {
         "property_id": "C12",
@@ -121,7 +121,7 @@ CHECKS = [
         "text": 'Block structure and ordering: factor-major Kronecker order at the training and prediction sites and in labels/groups (order algebra), complete indicators for the factor, trailing conditional new-group block, the reduced-iff rule as written, finite-state abstract interpretation of the implicit-intercept logic of `|` over all 4 states, every (effect, factor) pair formed, no effect object under two factors. NOT decided: rank/span on crossed data and whether the simplified coding rule equals the common-effects rule.',
         "design_ref": 'DESIGN.md section 3, C05 (R5.1-R5.6)',
         "note": COMMON_NOTE,
-        "technique": 'order algebra; finite-state abstract interpretation of Model.__or__; CFG must-pass; ownership classification',
+        "technique": 'order algebra; finite-state abstract interpretation of Model.__or__; abstract evaluation of the product operands and of the coding decision (truth table over opaque atoms); CFG must-pass; ownership classification',
     },
     {
         "property_id": "C08",
